@@ -55,7 +55,9 @@ def leaf_positions(spec: morph.Spec, datum, path=(), out=None, depth=0):
     if depth > 8:
         return out
     k = spec.kind
-    if k.startswith("scalar") and k != "scalar:none":
+    if k == "scalar:user:U3":
+        pass    # a user leaf that accepts any object: nothing planted there is invalid
+    elif k.startswith("scalar") and k != "scalar:none":
         out.append(path)
     elif k.startswith("iter") and isinstance(datum, (list, tuple)):
         for i, el in enumerate(datum):
@@ -391,7 +393,7 @@ def run(ctx: Ctx):
         for _ in range(ctx.budget(8, 100)):
             x = sp.gen(ctx.rng)
             entry_both_case(ctx, eng, sp, x)
-    specs = eng.gen_specs(ctx.budget(140, 2000), 3 if ctx.tier == "quick" else 4)
+    specs = eng.gen_specs(ctx.budget(140, 2000), 3 if ctx.tier == "quick" else 4, user_leaves=True)
     # correspondence of full error trees (all modes)
     recs = eng.load_records(specs, suite="load", n_valid=1, n_corrupt=4, n_hostile=1)
     # trail exactness on the corrupted / hostile stream (whatever was reported must be followable)
